@@ -579,12 +579,14 @@ type Contract struct {
 	Modifies   []string
 	Reads      []string
 	Writes     []string // slice parameters whose elements the callee may overwrite (out-parameters)
+	Fills      []string // slice parameters b such that result == append(b, ...) written into b's spare capacity
 	HasMod     bool
 	Pure       bool
 	Loops      map[int]*LoopSpec
 	CallAsserts []*CallAssert
 	ReturnAsserts map[int][]*Clause
 	PanicsWhen []*Clause
+	Always     []*Clause // checked after every call and at every return
 	Uses       []string // lemma / axiom group names
 	Abstract   []string // callees or statement kinds abstracted
 	Counts     map[string]string // event name -> callee key
@@ -632,6 +634,7 @@ type ContractFile struct {
 	Consts    map[string]string
 	Immutable []string
 	GhostFields []GhostField
+	GhostVars   []SVar
 }
 
 // GhostField: specification-only field of a struct type (kept in the heap model like a real field).
@@ -641,9 +644,9 @@ type GhostField struct {
 	Type     *STypeExpr
 }
 
-var blockKeywords = map[string]bool{"ghostfield": true, "immutable": true, "functype": true, "func": true, "extern": true, "ghost": true, "axiom": true, "lemma": true, "group": true, "const": true}
+var blockKeywords = map[string]bool{"ghostvar": true, "ghostfield": true, "immutable": true, "functype": true, "func": true, "extern": true, "ghost": true, "axiom": true, "lemma": true, "group": true, "const": true}
 var clauseKeywords = map[string]bool{
-	"requires": true, "ensures": true, "modifies": true, "reads": true, "writes": true, "loop": true, "at": true, "panics_when": true,
+	"always": true, "requires": true, "ensures": true, "modifies": true, "reads": true, "writes": true, "fills": true, "loop": true, "at": true, "panics_when": true,
 	"prop": true, "pure": true, "uses": true, "abstract": true, "counts": true, "trusted": true, "may_panic": true,
 	"induct": true, "trigger": true, "inline": true, "opaque": true, "nosafe": true,
 }
@@ -717,6 +720,13 @@ func readContractFile(path, pkgPath string) (*ContractFile, error) {
 			return &Clause{Kind: kind, Label: label, Text: text, Expr: e, Line: rl.line}, nil
 		}
 		switch kw {
+		case "ghostvar":
+			// ghostvar name type : specification-only global variable (mutable, part of the heap model)
+			ps, err := parseParams(rest)
+			if err != nil || len(ps) != 1 {
+				return nil, fail(rl.line, "ghostvar name type")
+			}
+			cf.GhostVars = append(cf.GhostVars, ps[0])
 		case "ghostfield":
 			// ghostfield Type.name type
 			f := splitWords(rest, 2)
@@ -806,6 +816,15 @@ func readContractFile(path, pkgPath string) (*ContractFile, error) {
 			// always file-level: applies to the blocks that follow
 			curProps = ps
 			cur, curLemma = nil, nil
+		case "always":
+			c, err := parseClause("always")
+			if err != nil {
+				return nil, err
+			}
+			if cur == nil {
+				return nil, fail(rl.line, "always outside a block")
+			}
+			cur.Always = append(cur.Always, c)
 		case "requires", "ensures", "panics_when":
 			c, err := parseClause(kw)
 			if err != nil {
@@ -860,6 +879,12 @@ func readContractFile(path, pkgPath string) (*ContractFile, error) {
 			for _, m := range strings.Split(rest, ",") {
 				if m = strings.TrimSpace(m); m != "" {
 					cur.Writes = append(cur.Writes, m)
+				}
+			}
+		case "fills":
+			for _, m := range strings.Split(rest, ",") {
+				if m = strings.TrimSpace(m); m != "" {
+					cur.Fills = append(cur.Fills, m)
 				}
 			}
 		case "reads":
